@@ -119,6 +119,7 @@ CONN_PLANS = {
                  ('norefuse', ['NoRefuseAfterShutdown'], C({1, 2, 3}, M(), cut=1, close=1)),
                  ('sweepskip', ['SweepSkips'], C({1, 2, 3}, M(), cut=1))],
         'sims': FAULT_SIMS,
+        'also_stream': 'C10',
     },
     'C04': {
         'own': 'C04',
@@ -292,6 +293,13 @@ def conn_check(pid, tier, replay_file=None):
         if len(cov['samples']) < 4 and cfgs:
             cov['samples'].append({'stress_config': cfgs[0], 'result': {k: v for k, v in (results[0] if results else {}).items() if k != 'failures'}})
         lap('stress')
+    if plan.get('also_stream') and not replay_file:
+        # outstanding stream calls (open / close of a stream) at the moment the connection ends: schedules of RpcStream.tla
+        sv, scov, sass = stream_core(pid, STREAM_PLANS[plan['also_stream']], tier, None, models=False)
+        violations.extend(sv)
+        cov['stream_layer'] = {k: scov[k] for k in ('schedules_replayed', 'traces_validated_against_impl', 'trace_events')}
+        cov['traces_validated_against_impl'] += scov['traces_validated_against_impl']
+        lap('stream_layer')
     if plan.get('also_transport') and not replay_file:
         # the same property one layer up: schedules of Transport.tla with kills/restarts (no retry, no duplicate execution)
         tv, tcov, tass = trans_core(pid, TRANS_PLANS[plan['also_transport']], tier, None, models=False)
@@ -567,3 +575,145 @@ def cli_check(pid, tier, replay_file=None):
 
 for _p in CLI_PLANS:
     REGISTRY[_p] = cli_check
+
+
+# ---------------------------------------------------------------------------
+# Stream family (C09 C10)
+import streamfam as sf
+SC = sf.consts
+MODES = ({}, {'CliDirect': True}, {'SrvDirect': True}, {'SrvPipe': True}, {'CliDirect': True, 'SrvDirect': True})
+def stream_scenarios(tier):
+    out = []
+    reps = 1 if tier == 'quick' else 6
+    for rep in range(reps):
+        for net, poll, readers in (('unix', False, 0), ('frag', False, 0), ('frag', True, 1), ('frag', True, 3)):
+            for end in ('close', 'drop', 'half'):
+                for mode in ({}, {'srvdirect': True}, {'clidirect': True}, {'srvpipe': True}):
+                    if rep == 0 and mode and end == 'close' and not poll:
+                        continue
+                    sc = {'network': net, 'poll': poll, 'readers': readers, 'streams': 1 + (len(out) % 3), 'pushfirst': len(out) % 4,
+                          'msgs': 3 + len(out) % 5, 'unary': len(out) % 6, 'end': end, 'frag': 7 if net == 'frag' else 0}
+                    sc.update(mode)
+                    out.append(sc)
+    return out
+
+STREAM_PLANS = {
+    'C09': {
+        'own': 'C09',
+        'models': {'quick': [('s1', SC(streams=(1,), push=2, send=2)), ('s2', SC(streams=(1, 2), push=1, send=1, cut=False))],
+                   'thorough': [('s2', SC(streams=(1, 2), push=2, send=1)), ('s1b', SC(streams=(1,), push=3, send=3))]},
+        'devs': [('ackafter', ['AckAfterHandlerStart'], SC(streams=(1,), push=2, send=0, cut=False, close=False)),
+                 ('flipcaller', ['FlipInCaller'], SC(streams=(1,), push=2, send=0, cut=False, close=False)),
+                 ('dup', ['DupDeliver'], SC(streams=(1,), push=2, send=0, cut=False, close=False)),
+                 ('cross', ['CrossDeliver'], SC(streams=(1, 2), push=1, send=0, cut=False, close=False))],
+        'sims': [('s2', SC(streams=(1, 2), push=3, send=3)), ('s3', SC(streams=(1, 2, 3), push=2, send=2, cut=False)),
+                 ('s1', SC(streams=(1,), push=5, send=5, cut=False))],
+        'scenarios': stream_scenarios,
+    },
+    'C10': {
+        'own': 'C10',
+        'models': {'quick': [('s2c', SC(streams=(1, 2), push=1, send=0)), ('s1c', SC(streams=(1,), push=1, send=1))],
+                   'thorough': [('s2', SC(streams=(1, 2), push=1, send=1)), ('s2p', SC(streams=(1, 2), push=1, send=1, poll=True))]},
+        'live': {'quick': [('l1', SC(streams=(1,), push=1, send=1))], 'thorough': [('l2', SC(streams=(1, 2), push=1, send=0))]},
+        'devs': [('nosweep', ['NoClientSweep'], SC(streams=(1,), push=1, send=0)),
+                 ('closewrong', ['CloseWrongEntry'], SC(streams=(1, 2), push=0, send=0, cut=False)),
+                 ('pollnosweep', ['PollNoStreamSweep'], SC(streams=(1,), push=0, send=0, poll=True))],
+        'sims': [('s2', SC(streams=(1, 2), push=2, send=2)), ('s3', SC(streams=(1, 2, 3), push=1, send=1)),
+                 ('s1', SC(streams=(1,), push=3, send=3))],
+        'scenarios': stream_scenarios,
+    },
+}
+
+def stream_check(pid, tier, replay_file=None):
+    t0 = time.time()
+    violations, cov, assumptions = stream_core(pid, STREAM_PLANS[pid], tier, replay_file)
+    return finish(pid, tier, 'model_checking', cov, t0, violations, [], assumptions)
+
+def stream_core(pid, plan, tier, replay_file=None, models=True):
+    sd = seed()
+    assumptions = ['the stream handler on the server is a puppet executing one command at a time (push / read / return); frames are delivered one by one over the harness wire',
+                   'the trace specification follows the intended design only: lost, duplicated, reordered or cross-delivered messages make a trace unexplainable',
+                   'a read still blocked 2 s after the connection ended counts as blocked forever']
+    violations = []
+    cov = {'model_runs': [], 'deviation_runs': [], 'states': 0, 'transitions': 0, 'traces_validated_against_impl': 0, 'samples': [],
+           'schedules_replayed': 0, 'trace_events': 0}
+    schedules = []
+    if replay_file:
+        schedules = [json.load(open(replay_file))['schedule']]
+    else:
+        if not os.environ.get('VERIF_SKIP_MC') and models:
+            for tag, c in plan['models'].get(tier, plan['models']['quick']):
+                res = sf.model_check('%s_%s' % (pid, tag), c, timeout=3000 if tier == 'thorough' else 600)
+                cov['model_runs'].append({'instance': tag, 'constants': res['consts'], 'distinct_states': res['distinct'], 'states_generated': res['states'],
+                                          'depth': res['depth'], 'complete': res['complete'], 'wall_s': round(res['wall'], 1)})
+                cov['states'] += res['distinct']; cov['transitions'] += res['states']
+                if res['violated']:
+                    raise Machinery('the intended stream design (Dev = {}) violates %s in instance %s\n%s' % (res['violated'], tag, res['out'][-2500:]))
+                if not res['complete']:
+                    raise Machinery('model checking of %s did not complete' % tag)
+            for tag, c in plan.get('live', {}).get(tier, plan.get('live', {}).get('quick', [])):
+                res = sf.model_check('%s_%s' % (pid, tag), c, timeout=3000 if tier == 'thorough' else 600, live=True)
+                cov['model_runs'].append({'instance': tag + ' (liveness)', 'constants': res['consts'], 'distinct_states': res['distinct'],
+                                          'states_generated': res['states'], 'complete': res['complete'], 'wall_s': round(res['wall'], 1)})
+                cov['states'] += res['distinct']; cov['transitions'] += res['states']
+                if res['violated']:
+                    raise Machinery('the intended stream design violates liveness %s in instance %s\n%s' % (res['violated'], tag, res['out'][-2500:]))
+        for j, (tag, dev, c) in enumerate(plan['devs']):
+            s, res = sf.deviation_schedule('%s_%s' % (pid, tag), c, dev, MODES[j % len(MODES)])
+            cov['deviation_runs'].append({'deviation': dev, 'violated_in_model': res['violated'], 'states_generated': res['states'],
+                                          'schedule_len': len(s['steps']) if s else 0})
+            if s is None:
+                raise Machinery('deviation %s produced no counterexample (vacuity)' % dev)
+            schedules.append(s)
+        nsim = 40 if tier == 'quick' else 400
+        for j, (tag, c) in enumerate(plan['sims']):
+            ss, res = sf.sim_schedules('%s_%s' % (pid, tag), c, nsim, 70, sd * 1000 + j, MODES)
+            schedules.extend(ss)
+    rp, crashes = sf.replay(schedules, pid)
+    for cr in crashes:
+        first = cr['panic'].splitlines()[0] if cr['panic'] else 'crash'
+        violations.append({'property': pid, 'signature': 'crash:' + first[:80], 'summary': '%s: the process crashed inside hslam/rpc: %s' % (pid, first),
+                           'schedule': None, 'finding': {'kind': 'crash', 'panic': cr['panic']}, 'trace': []})
+    if rp:
+        tracefile, results, ss = rp
+        cov['schedules_replayed'] += len(ss)
+        accepted, findings, stats = sf.validate(tracefile, pid, [s['name'] for s in ss])
+        cov['traces_validated_against_impl'] += accepted
+        cov['trace_events'] += stats['events']
+        for f in findings:
+            owner = sf.OWN.get(f['what'], pid) if f['kind'] == 'invariant' else sf.REJECT_OWNER.get(f['event'].get('ev', ''), pid)
+            sig = '%s:%s@%s' % (f['kind'], f['what'] if f['kind'] == 'invariant' else 'rejected', f['event'].get('ev', ''))
+            summary = '%s%s: %s at event %s (trace %s)' % ('' if owner == pid else '[owned by %s] ' % owner, owner, f['what'],
+                                                          json.dumps({k: f['event'].get(k) for k in ('ev', 'c', 'a', 'b', 's', 'seq', 'k', 'sent')}), f['name'])
+            sch = ss[f['trace']] if f['trace'] < len(ss) else None
+            violations.append({'property': owner, 'signature': sig, 'summary': summary, 'schedule': sch,
+                               'finding': {k: f[k] for k in ('kind', 'what', 'event', 'pos_in_trace', 'name')}, 'trace': f['trace_events']})
+        if ss:
+            tr = cf.split_traces(tracefile)
+            cov['samples'].append({'schedule': ss[0]['name'], 'steps': ss[0]['steps'][:40], 'trace_excerpt': [json.loads(x) for x in tr[0][:25]] if tr else []})
+    if plan.get('scenarios') and not replay_file:
+        # ungated scenarios on real sockets, poll-mode branch included (API-level oracle: what each ReadMessage returned)
+        scs = []
+        for j, sc in enumerate(plan['scenarios'](tier)):
+            sc = dict(sc); sc.setdefault('seed', sd * 100 + j); sc.setdefault('name', '%s-sc%d' % (pid, j))
+            scs.append(sc)
+        results, scr = cf.run_stress(scs, pid, cmd='sstress')
+        cov['scenario_runs'] = len(results)
+        cov['scenario_messages'] = sum(r.get('calls', 0) for r in results)
+        for r in results:
+            for fl in (r.get('failures') or [])[:3]:
+                cfg = [x for x in scs if x['name'] == r['name']]
+                violations.append({'property': pid, 'signature': 'scenario:' + ' '.join(fl.split()[:6]), 'summary': '%s: stream scenario %s: %s' % (pid, r['name'], fl),
+                                   'stress_config': cfg[0] if cfg else None, 'schedule': None, 'finding': {'kind': 'scenario', 'failure': fl}, 'trace': []})
+        for cr in scr:
+            first = cr['panic'].splitlines()[0] if cr['panic'] else 'crash'
+            violations.append({'property': pid, 'signature': 'crash:' + first[:80], 'summary': '%s: the process crashed inside hslam/rpc in scenario %s: %s' % (pid, (cr['config'] or {}).get('name'), first),
+                               'stress_config': cr['config'], 'schedule': None, 'finding': {'kind': 'crash', 'panic': cr['panic']}, 'trace': []})
+        if scs:
+            cov['samples'].append({'scenario': scs[0]})
+    cov['rule'] = ('states/transitions: exhaustive TLC runs of RpcStream.tla (Dev={}; liveness under fairness of library steps and of readers); traces: executions of the '
+                   'real Conn/ServeCodec stream code driven by TLC behaviours, each accepted by RpcStreamTrace')
+    return violations, cov, assumptions
+
+for _p in STREAM_PLANS:
+    REGISTRY[_p] = stream_check
